@@ -1,5 +1,6 @@
 import Heph.Proofs.TransKotlinHistory
 import Heph.Props.C11Scala
+import Heph.Props.C11Groovy
 import Heph.Generated.TransWrites
 /-!
 # C11 — translation is a pure function of the program (Kotlin translator modelled)
